@@ -21,10 +21,25 @@ def main():
     if hasattr(spec, "impl_setup"):
         spec.impl_setup()
     out = []
+    import signal
+
+    limit = float(getattr(spec, "CASE_TIMEOUT", 120))
+
+    class CaseTimeout(BaseException):
+        pass
+
+    def _alarm(signum, frame):
+        raise CaseTimeout("case exceeded %.0fs (non-terminating loop in the code under test?)" % limit)
+
+    signal.signal(signal.SIGALRM, _alarm)
     for c in cases:
         rec = {}
         try:
-            obs = spec.impl(c)
+            signal.setitimer(signal.ITIMER_REAL, limit)
+            try:
+                obs = spec.impl(c)
+            finally:
+                signal.setitimer(signal.ITIMER_REAL, 0)
             rec["obs"] = obs
         except BaseException as e:  # the driver itself must not die on one case
             rec["crash"] = "%s: %s" % (type(e).__name__, e)
